@@ -156,6 +156,69 @@ fn run_reader_impl(
     res
 }
 
+/// one library transport Reader across several sessions: `reset()` is called between them, as the session layer does
+/// when a connection ends; returns what each session delivered
+pub fn run_reader_sessions(
+    outstation: bool,
+    local: u16,
+    rx: usize,
+    sessions: &[Vec<Vec<u8>>],
+    discard: bool,
+    lvl: usize,
+) -> Vec<ReadResult> {
+    let addr = EndpointAddress::try_new(local).unwrap();
+    let m = modes(discard);
+    let mut reader = if outstation {
+        Reader::outstation(m, addr, Feature::Disabled, rx)
+    } else {
+        Reader::master(m, addr, rx)
+    };
+    let level = decode_level(lvl);
+    let mut all = vec![];
+    for chunks in sessions {
+        // a new connection is a new physical layer
+        let (pipe, mut phys) = io::phys_pipe(None);
+        for c in chunks {
+            pipe.push(c);
+        }
+        let mut res = ReadResult {
+            fragments: vec![],
+            link_msgs: 0,
+            error: None,
+            tx: vec![],
+        };
+        loop {
+            let r = {
+                let mut fut = std::pin::pin!(reader.read(&mut phys, level));
+                poll_once(fut.as_mut())
+            };
+            match r {
+                Poll::Pending => break,
+                Poll::Ready(Err(e)) => {
+                    res.error = Some(format!("{e:?}"));
+                    break;
+                }
+                Poll::Ready(Ok(())) => match reader.pop() {
+                    Some(TransportData::Fragment(f)) => res.fragments.push(Got {
+                        source: f.info.addr.link.raw_value(),
+                        broadcast: f.info.broadcast.map(|m| m.address()).unwrap_or(0),
+                        port: phys_port(f.info.addr.phys),
+                        data: f.data.to_vec(),
+                    }),
+                    Some(TransportData::LinkLayerMessage(_)) => res.link_msgs += 1,
+                    None => {
+                        res.error = Some("read returned Ok but nothing to pop".into());
+                        break;
+                    }
+                },
+            }
+        }
+        all.push(res);
+        reader.reset();
+    }
+    all
+}
+
 /// run the library Writer, return the bytes it put on the wire
 pub fn run_writer(
     w: &mut Writer,
@@ -950,6 +1013,115 @@ pub fn run(a: &ShardArgs) -> Result<(), String> {
         if out::sample_count() < 2 {
             out::sample(detail("sample scenario", J::Null));
         }
+    }
+
+    // ------------------------------------------------------------ part C
+    // session boundaries: what a connection left half-assembled must not be completed by the next one
+    let n = a.n(600);
+    for it in 0..n {
+        let outstation = r.below(4) != 0;
+        let (local, peer) = if outstation { (OUT, MASTER) } else { (MASTER, OUT) };
+        let rx = *r.pick(&[249usize, 498, 1000, 2048]);
+        let mk = |data: &[u8], seq: u8| -> Vec<Seg> {
+            rt::segment(data, seq)
+                .into_iter()
+                .map(|s| Seg {
+                    port: 0,
+                    src: peer,
+                    dest: local,
+                    hdr: s[0],
+                    data: s[1..].to_vec(),
+                    kind: 0,
+                })
+                .collect()
+        };
+        let mut seq = r.below(64) as u8;
+        // session 1: optionally a complete fragment, then the first k segments of a longer one
+        let mut s1: Vec<Seg> = vec![];
+        let mut want1: Vec<Vec<u8>> = vec![];
+        if r.bool() {
+            let n0 = r.range(6, rx.min(600) as u64) as usize;
+            let f0 = tagged(&mut r, n0);
+            let segs = mk(&f0, seq);
+            seq = (seq + segs.len() as u8) & 0x3F;
+            s1.extend(segs);
+            want1.push(f0);
+        }
+        let long_len = r.range(250, (rx.max(251)) as u64) as usize;
+        let f1 = tagged(&mut r, long_len.max(250));
+        let f1 = if f1.len() > rx { f1[..rx].to_vec() } else { f1 };
+        let segs1 = mk(&f1, seq);
+        if segs1.len() < 2 {
+            continue;
+        }
+        let k = 1 + r.usize_below(segs1.len() - 1);
+        s1.extend(segs1[..k].iter().cloned());
+        // session 2: either the remainder of that fragment (same sequence numbers, no FIR) or nothing of it, then a clean fragment
+        let continue_old = r.chance(3, 4);
+        let mut s2: Vec<Seg> = vec![];
+        if continue_old {
+            s2.extend(segs1[k..].iter().cloned());
+        }
+        let nt = r.range(6, rx.min(700) as u64) as usize;
+        let tail = tagged(&mut r, nt);
+        let tseq = if r.bool() {
+            (seq + segs1.len() as u8) & 0x3F
+        } else {
+            r.below(64) as u8
+        };
+        s2.extend(mk(&tail, tseq));
+        let wire = |v: &Vec<Seg>| -> Vec<u8> { v.iter().flat_map(|s| s.frame(outstation)).collect() };
+        let (w1, w2) = (wire(&s1), wire(&s2));
+        let (c1name, c1) = chunking(&mut r, &w1);
+        let (_, c2) = chunking(&mut r, &w2);
+        let res = run_reader_sessions(
+            outstation,
+            local,
+            rx,
+            &[c1, c2],
+            r.bool(),
+            r.usize_below(NUM_DECODE_LEVELS),
+        );
+        out::eval(1);
+        let got1: Vec<Vec<u8>> = res[0].fragments.iter().map(|g| g.data.clone()).collect();
+        let got2: Vec<Vec<u8>> = res[1].fragments.iter().map(|g| g.data.clone()).collect();
+        let detail = |why: &str| {
+            J::obj(vec![
+                ("why", J::s(why)),
+                ("role", J::s(if outstation { "outstation" } else { "master" })),
+                ("rx", J::U(rx as u64)),
+                ("cut_after_segment", J::U(k as u64)),
+                ("segments_of_cut_fragment", J::U(segs1.len() as u64)),
+                ("remainder_sent_in_second_session", J::B(continue_old)),
+                ("session1_delivered", J::arr(got1.iter().map(|d| d.len()))),
+                ("session2_delivered", J::arr(got2.iter().map(|d| d.len()))),
+                ("errors", J::s(format!("{:?} {:?}", res[0].error, res[1].error))),
+            ])
+        };
+        if res[0].error.is_some() || res[1].error.is_some() {
+            viol(a, "reader_error", "reader_error|sessions", detail("reader error in a stream of valid frames"));
+            continue;
+        }
+        if got1 != want1 {
+            viol(a, if got1.len() > want1.len() { "soundness" } else { "completeness" }, "sessions|first", detail("first session: delivered fragments differ from the complete fragments sent"));
+            continue;
+        }
+        if got2.iter().any(|d| *d != tail) {
+            viol(
+                a,
+                "soundness",
+                &format!("soundness|session-boundary|{}", if continue_old { "remainder" } else { "fresh" }),
+                detail("second session delivered a fragment that it did not receive from its FIR segment on (assembly state survived the end of the first session)"),
+            );
+            continue;
+        }
+        if got2 != vec![tail.clone()] {
+            viol(a, "completeness", "completeness|session-boundary", detail("the clean fragment of the second session was not delivered exactly once"));
+            continue;
+        }
+        out::count("session_boundary_ok", 1);
+        out::distinct(&format!("C/{}/rx{}/{}/{}", if outstation { "o" } else { "m" }, rx, c1name, continue_old));
+        let _ = it;
     }
     Ok(())
 }
